@@ -76,6 +76,8 @@ def faces(kind, N, sp, org=0):
         if sp == "U":
             return np.arange(N + 1) * (2 * math.pi / N)
         h = math.pi / 16 if sp in ("I", "E") else math.pi / 20
+        if N > 8:
+            h = 1.5 * math.pi / inc.sum()
         if sp == "G":
             inc = np.array([1, 2, 4, 8][:N], dtype=float) if N <= 4 else np.ones(N)
         return math.pi / 8 + np.concatenate([[0.0], np.cumsum(inc)]) * h
@@ -140,6 +142,22 @@ LARGE_SHAPES = {1: [(4,), (5,), (6,)], 2: [(4, 2), (2, 5), (5, 4)], 3: [(4, 2, 1
 # guards applied to dimensional quantities) shows only there
 SCALED_SHAPES = {1: [(3,)], 2: [(2, 3)], 3: [(2, 1, 3)]}
 SCALES = [-30, 40]
+
+
+BIG_SHAPES = {1: [(40,), (133,)], 2: [(17, 13), (1, 40)], 3: [(7, 6, 5), (1, 12, 1)]}
+
+
+def big_specs(classes=None):
+    """Grids with many cells per axis.  A basis-exhaustive enumeration is not affordable there; checks that use
+    them evaluate their identity on generic (all entries distinct) fields and on all sign patterns - they catch
+    code paths that depend on the number of cells (vectorised fast paths, blocked loops, cached index tables)."""
+    out = []
+    for cls in (classes or CLASSES):
+        d = dim(cls)
+        for shape in BIG_SHAPES[d]:
+            out.append(spec(cls, shape, ["I"] * d, 1))
+            out.append(spec(cls, shape, ["L"] * d, 0))
+    return out
 
 
 def grid_specs(tier="quick", classes=None, templates=None, nmax=None, shapes_override=None, extras=True):
